@@ -13,7 +13,7 @@ tip change that keeps the height.
 import ast
 
 from ..model import AnalysisError, norm, walk_own
-from .. import q, pathrules as pr
+from .. import q, pathrules as pr, dataflow as df
 from .fresh import Fresh
 from . import c10, c20, c03
 
@@ -207,10 +207,22 @@ def rule_fanout(ctx):
     inter = [s for s in f.node.body if isinstance(s, ast.Assign) and norm(s.targets[0]) == tparam]
     oki = len(inter) == 1 and norm(inter[0].value) in (f'{tparam}.intersection(self.hashX_subs)', f'{tparam} & set(self.hashX_subs)',
                                                         f'{tparam} & self.hashX_subs.keys()')
+    # the dict of changes: the one whose items are sent as scripthash notifications
+    sl = [s for s in f.own_nodes() if isinstance(s, ast.For) and isinstance(s.iter, ast.Call) and isinstance(s.iter.func, ast.Attribute)
+          and s.iter.func.attr == 'items' and isinstance(s.iter.func.value, ast.Name)
+          and any(isinstance(c, ast.Call) and q.callee_name(ctx, f, c) == 'self.send_notification' for c in walk_own(s))]
+    chv = sl[0].iter.func.value.id if len(sl) == 1 else None
     tl = [s for s in f.own_nodes() if isinstance(s, ast.For) and norm(s.iter) == tparam]
-    ml = [s for s in f.own_nodes() if isinstance(s, ast.For) and isinstance(s.iter, ast.Call) and isinstance(s.iter.func, ast.Attribute)
-          and s.iter.func.attr == 'items' and 'mempool_statuses' in norm(s.iter)]
-    sl = [s for s in f.own_nodes() if isinstance(s, ast.For) and norm(s.iter) == 'changed.items()']
+
+    def is_mempool_copy(e):
+        if not (isinstance(e, ast.Call) and isinstance(e.func, ast.Attribute) and e.func.attr == 'items'):
+            return False
+        b = e.func.value
+        if isinstance(b, ast.Name):
+            dd = df.defs(f).get(b.id, [])
+            b = dd[0][1] if len(dd) == 1 else b
+        return isinstance(b, ast.Call) and isinstance(b.func, ast.Attribute) and b.func.attr == 'copy' and ctx.res.canon(b.func.value, f) == 'self.mempool_statuses'
+    ml = [s for s in f.own_nodes() if isinstance(s, ast.For) and is_mempool_copy(s.iter)]
     if len(tl) != 1 or len(ml) != 1 or len(sl) != 1:
         ctx.bad('C07.FANOUT', ctx.key(f, None, 'loops'), 'the touched loop, the mempool-status loop and the send loop are not all present',
                 loc=ctx.loc(f, f.node))
@@ -238,7 +250,7 @@ def rule_fanout(ctx):
     # inside the touched loop: status recomputed and recorded for every subscribed hashX
     for lp, label, cond_extra in ((tl, 'touched', False), (ml, 'mempool', True)):
         sas = [c for c in walk_own(lp) if isinstance(c, ast.Call) and q.callee_name(ctx, f, c) == 'self.subscription_address_status']
-        recs = [s for s in walk_own(lp) if isinstance(s, ast.Assign) and isinstance(s.targets[0], ast.Subscript) and norm(s.targets[0].value) == 'changed']
+        recs = [s for s in walk_own(lp) if isinstance(s, ast.Assign) and isinstance(s.targets[0], ast.Subscript) and norm(s.targets[0].value) == chv]
         ok = len(sas) == 1 and len(recs) == 1 and isinstance(q.stmt(sas[0]), ast.Assign) and norm(recs[0].value) == norm(q.stmt(sas[0]).targets[0])
         if ok:
             hx = norm(lp.target.elts[0]) if isinstance(lp.target, ast.Tuple) else norm(lp.target)
@@ -280,8 +292,9 @@ def rule_advance_touched(ctx):
     f = ctx.func('bp', 'BlockProcessor.advance_block')
     cfg = ctx.cfg(f)
     txl = c03.tx_loop(ctx, f)
+    from .roles import AdvanceNames
     ups = c03.calls_canon(ctx, f, txl, 'self.touched.update')
-    hist = c03.calls_canon(ctx, f, txl, 'hashXs_by_tx.append')
+    hist = c03.calls_canon(ctx, f, txl, f'{AdvanceNames(ctx, f).by_tx}.append')
     ok = len(ups) == 1 and len(hist) == 1 and norm(ups[0].args[0]) == norm(hist[0].args[0])
     if ok:
         ok, _w = pr.once_per_iteration(cfg, txl, [cfg.node(q.stmt(ups[0]))])
